@@ -356,12 +356,67 @@ Proof.
 Qed.
 
 (* omit with a wildcard removes exactly the matches from the list *)
-Theorem wildcard_omit : forall t l e ms, e_wild e = true -> glob t (e_name e) = GOk ms ->
-  exists l', remove_files t l e = AOk l' /\
-             forall x, In x (names l') <-> (In x (names l) /\ ~ In x ms).
+(* path.Match's relation: a star stands for any run of bytes without a slash *)
+Inductive gmp : list gtok -> bytes -> Prop :=
+| gmp_nil : gmp [] []
+| gmp_lit : forall c p s, gmp p s -> gmp (GLit c :: p) (c :: s)
+| gmp_star : forall p s1 s2, forallb (fun x => negb (Ascii.eqb x c_slash)) s1 = true -> gmp p s2 ->
+             gmp (GStar :: p) (s1 ++ s2).
+
+Lemma pmatch_star_eq p' s :
+  pmatch (GStar :: p') s =
+  (pmatch p' s || match s with x :: s' => negb (Ascii.eqb x c_slash) && pmatch (GStar :: p') s' | [] => false end).
+Proof. destruct s; reflexivity. Qed.
+
+Lemma pmatch_star_spec p' : forall s,
+  pmatch (GStar :: p') s = true <->
+  exists s1 s2, s = s1 ++ s2 /\ forallb (fun x => negb (Ascii.eqb x c_slash)) s1 = true /\ pmatch p' s2 = true.
 Proof.
-  intros t l e ms Hw Hg. unfold remove_files. rewrite Hw, Hg.
-  eexists; split; [reflexivity|]. intros x. apply fold_del_names.
+  induction s as [|x s IH]; rewrite pmatch_star_eq.
+  - rewrite orb_false_r. split.
+    + intros H. exists [], []. auto.
+    + intros (s1 & s2 & E & _ & H). symmetry in E. apply app_eq_nil in E as [-> ->]. exact H.
+  - split.
+    + intros H. apply orb_true_iff in H as [H|H].
+      * exists [], (x :: s). auto.
+      * apply andb_true_iff in H as [Hx H]. apply IH in H as (s1 & s2 & -> & H1 & H2).
+        exists (x :: s1), s2. cbn [forallb app]. rewrite Hx, H1. auto.
+    + intros (s1 & s2 & E & H1 & H2). destruct s1 as [|y s1].
+      * cbn in E. subst s2. rewrite H2. reflexivity.
+      * cbn [app] in E. injection E as <- ->. cbn [forallb] in H1. apply andb_true_iff in H1 as [Hy H1].
+        rewrite Hy. cbn [andb]. apply orb_true_iff. right. apply IH. exists s1, s2. auto.
+Qed.
+
+Theorem pmatch_spec : forall p s, pmatch p s = true <-> gmp p s.
+Proof.
+  induction p as [|g p IH]; intros s.
+  - destruct s; cbn [pmatch]; split; intros H.
+    + constructor.
+    + reflexivity.
+    + discriminate.
+    + inversion H.
+  - destruct g as [|c].
+    + rewrite pmatch_star_spec. split.
+      * intros (s1 & s2 & -> & H1 & H2). constructor; [exact H1|now apply IH].
+      * intros H. inversion H as [| |p0 s1 s2 H1 H2]; subst. exists s1, s2. repeat split; auto. now apply IH.
+    + destruct s as [|x s]; cbn [pmatch].
+      * split; [discriminate|intros H; inversion H].
+      * split.
+        -- intros H. apply andb_true_iff in H as [Hc H]. apply Ascii.eqb_eq in Hc. subst x. constructor. now apply IH.
+        -- intros H. inversion H; subst. rewrite Ascii.eqb_refl. cbn. now apply IH.
+Qed.
+
+(* omit with a wildcard removes exactly the members whose name matches the pattern as written *)
+Theorem wildcard_omit : forall t l e p, e_wild e = true -> gtokens (e_name e) = GPat p ->
+  exists l', remove_files t l e = AOk l' /\
+             forall x, In x (names l') <-> (In x (names l) /\ pmatch p x = false).
+Proof.
+  intros t l e p Hw Hg. unfold remove_files. rewrite Hw, Hg.
+  eexists; split; [reflexivity|]. intros x. unfold names. rewrite !in_map_iff. split.
+  - intros (y & <- & Hy). apply filter_In in Hy as [Hy Hm]. apply negb_true_iff in Hm.
+    split; [exists y; auto|exact Hm].
+  - intros ((y & <- & Hy) & Hm). exists y. split; [reflexivity|]. apply filter_In. split; [exact Hy|].
+    now rewrite Hm.
 Qed.
 
 (* ------------------------------------------------------------------ add *)
@@ -413,5 +468,6 @@ Print Assumptions fl_set_names.
 Print Assumptions lstat_found.
 Print Assumptions glob_members.
 Print Assumptions expand_members.
+Print Assumptions pmatch_spec.
 Print Assumptions wildcard_omit.
 Print Assumptions wildcard_add.
